@@ -41,7 +41,7 @@ func init() {
 		},
 		Quick:    150000,
 		Thorough: 1500000,
-		Require:  []string{"fetch.restartWhileCached", "upload.blockNumberNeedsThreeBytes", "transfer.multiBlock", "transfer.completed", "transfer.failed", "block.staleReplay", "block.etagChange", "block.outOfOrder", "block.staleAfterCompletion", "block.foreignTokenDiffersOnlyInLength", "dgram.drop", "dgram.dup", "time.transferTimeout"},
+		Require:  []string{"fetch.restartWhileCached", "upload.blockNumberNeedsThreeBytes", "transfer.multiBlock", "transfer.completed", "transfer.failed", "block.staleReplay", "block.etagChange", "block.outOfOrder", "block.staleAfterCompletion", "block.foreignTokenDiffersOnlyInLength", "dgram.drop", "dgram.dup", "time.transferTimeout", "oneway.nonConfirmable"},
 		Assume: []string{
 			"the property does not promise success: a failed transfer is never a violation; completion in fault-free runs is reported as a probe (transfer.completed vs transfer.failed)",
 			"stream endpoints get an injected, well-formed CSM with Block-Wise-Transfer (any RFC 8323 peer may send it); two go-coap stream endpoints would otherwise never use block-wise with each other",
